@@ -136,4 +136,55 @@ theorem C02_placeholders_is_source (m : Meta) (asg : List (String × String)) (d
 example : loopGen { trialName := "t", trialNamespace := "ns", kind := "Job", apiVersion := "batch/v1", annotations := [], labels := [] }
     [("lr", "0.1")] false [(("a", .assign "lr"), false), (("b", .metaName), false)] = .ok ([("a", "0.1"), ("b", "t")], 1) := by rfl
 
+/-! ### after the loop
+
+`errCountGuard`, `replaceAllGuard` and `returnTemplateGuard` are the regenerated conditions of the three sites that follow the loop
+(the count error, the replacement of the placeholders, the successful return).  The loop itself is passed under the atom
+`loopDone` = "it ran to its end without returning", which on the model is `buildMap … = .ok _` (and the loop is the iteration of
+the generated step by `C02_loop_is_source`); `countMismatch` = `len(assignments) != nonMetaParamCount`. -/
+
+theorem C02_after_loop_guards_known :
+    errCountGuardUnknown = [] ∧ replaceAllGuardUnknown = [] ∧ returnTemplateGuardUnknown = [] ∧
+    errCountGuardSites = 1 ∧ replaceAllGuardSites = 1 ∧ returnTemplateGuardSites = 1 := by decide
+
+/-- what follows the loop, written with the generated guards (template read and parsed without error; `specNil` = whether it had
+    to be parsed here; `d` = the count comparison that is not reached when the loop returned) -/
+def afterLoopGen (r : Except Err (List (String × String) × Nat)) (asgLen : Nat) (specNil d : Bool) : Except Err (List (String × String)) :=
+  let done := match r with | .ok _ => true | .error _ => false
+  let mism := match r with | .ok (_, n) => decide (asgLen ≠ n) | .error _ => d
+  let G (g : Bool → Bool → Bool → Bool → Bool → Bool → Bool) := g false false specNil done mism false
+  if G errCountGuard then .error .notInTrialParameters
+  else match r with
+    | .error e => .error e
+    | .ok (ps, _) => if G replaceAllGuard && G returnTemplateGuard then .ok (dedupLast ps) else .error .notInTrialParameters
+
+/-- **C02_after_loop_is_source**: the count error is returned, and the placeholders are replaced and the template returned, under
+    exactly the regenerated path conditions of the three sites after the loop -/
+theorem C02_after_loop_is_source (m : Meta) (asg : List (String × String)) (params : List (String × Ref)) (specNil d : Bool) :
+    placeholders m asg params = afterLoopGen (buildMap m asg params) asg.length specNil d := by
+  unfold placeholders afterLoopGen errCountGuard replaceAllGuard returnTemplateGuard
+  rcases buildMap m asg params with e | ⟨ps, n⟩
+  · cases specNil <;> simp
+  · by_cases h : asg.length = n <;> cases specNil <;> simp [h]
+
+/-- the template is returned exactly when the loop ended without an error and the counts agree; after a loop that returned,
+    none of the three sites is reached -/
+theorem C02_return_guard_exact (specNil d : Bool) (r : Except Err (List (String × String) × Nat)) (asgLen : Nat) :
+    (∀ e, r = .error e → errCountGuard false false specNil false d false = false ∧
+      replaceAllGuard false false specNil false d false = false ∧ returnTemplateGuard false false specNil false d false = false) ∧
+    (∀ ps n, r = .ok (ps, n) →
+      (returnTemplateGuard false false specNil true (decide (asgLen ≠ n)) false = true ↔ asgLen = n) ∧
+      replaceAllGuard false false specNil true (decide (asgLen ≠ n)) false =
+        returnTemplateGuard false false specNil true (decide (asgLen ≠ n)) false) := by
+  unfold errCountGuard replaceAllGuard returnTemplateGuard
+  constructor
+  · intro e _; cases specNil <;> simp
+  · intro ps n _; cases specNil <;> simp
+
+/-- **C02_applyParameters_is_source**: the loop of generated steps followed by the generated sites after it — every decision of
+    the model of `applyParameters` is made under a path condition regenerated from the source -/
+theorem C02_applyParameters_is_source (m : Meta) (asg : List (String × String)) (specNil d : Bool) (ps : List ((String × Ref) × Bool)) :
+    placeholders m asg (ps.map (·.1)) = afterLoopGen (loopGen m asg d ps) asg.length specNil d := by
+  rw [C02_after_loop_is_source m asg _ specNil d, C02_loop_is_source m asg d ps]
+
 end Katib.Gen
